@@ -209,8 +209,9 @@ def roundtrip_harness(ctx, cfg):
     if ctx.choice('unit_axis', 2) and rank > 1:
         shape[0] = 1
     kinds = ['f', 'i'][ctx.choice('kind', 2)]
-    nres = 1 + ctx.choice('results', 2)
-    maskpat = ctx.choice('maskpat', 4)        # 0 none, 1 first cell of result 0, 2 last cell of the last result, 3 both
+    nres = 1 + ctx.choice('results', 3)
+    # 0 none (no mask arrays), 1 first cell of result 0, 2 last cell of the last result, 3 both, 4 a middle result only, 5 first result without a mask array + last masked
+    maskpat = ctx.choice('maskpat', 6)
     rec = {'kind': 'roundtrip', 'shape': shape, 'dkind': kinds, 'nres': nres, 'maskpat': maskpat}
     rep = D.WORKER.ask({'netcdf_roundtrip': rec, 'scratch': D.SCRATCH})
     obs, groups = [], {}
